@@ -27,6 +27,7 @@ for d in sorted(glob.glob(os.path.join(V, "seeded", "*", ""))):
     if viol:
         how = "caught (no failing input found)" if all(v.rstrip().endswith("no-failing-input-found") for v in viol) else "caught with replay input"
     ties = [l for l in out.split("\n") if "do not build" in l or "FAILED" in l]
-    results[name] = {pid: {"how": how, "lines": viol[:3], "ties": [t[:200] for t in ties][:3], "wall_s": round(time.time() - t0, 1)}}
+    results[name] = {pid: {"how": how, "lines": viol[:3], "ties": [t[:200] for t in ties][:3], "wall_s": round(time.time() - t0, 1),
+                          **({"output_tail": out[-1500:]} if how != "caught with replay input" else {})}}
     print(f"{name}: {pid}: {how} ({round(time.time() - t0)}s)" + (" | " + ties[0][:120] if ties else ""), flush=True)
     json.dump(results, open(res_path, "w"), indent=1, ensure_ascii=False)
